@@ -269,9 +269,12 @@ let fam_ratec () =
 
 let () = families := !families @ [ ("ratec", fam_ratec) ]
 
-(* vsem kind L nops {op args}* : the object-level model; prints the same per-operation tokens as the harness *)
+(* vsem kind L nops {op args}* : the object-level model; prints the same per-operation tokens as the harness.
+   Stage counts: Rosenbrock kind, L = 0: the three-stage set, L = 3: the four-stage set; op 8 (solve with another
+   parameter set) t = 0: the two-stage set, t = 1: the six-stage set.  Backward Euler holds no stage vectors. *)
 let fam_vsem () =
-  let _kind = int () in let _l = int () in let nops = int () in
+  let kind = int () in let l = int () in let nops = int () in
+  let stages0 = if kind <> 0 then 0 else if l = 0 then 3 else 4 in
   let ops = times nops (fun () ->
     match int () with
     | 0 -> OGet (nat ())
@@ -281,11 +284,14 @@ let fam_vsem () =
     | 4 -> let i = nat () in let j = nat () in OMoveA (i, j)
     | 5 -> let i = nat () in let v = nat () in OSet (i, v)
     | 6 -> OSolve (nat ())
+    | 8 -> let i = nat () in let t = int () in
+           OPSolve (i, nat_of_int (if kind <> 0 then 0 else if t = 0 then 2 else 6))
     | _ -> OSMove) in
-  List.iter (fun tk -> out (match tk with
+  let is_psolve = Array.of_list (List.map (function OPSolve _ -> true | _ -> false) ops) in
+  List.iteri (fun k tk -> out (match tk with
     | TkGet -> "g" | TkCC -> "cc" | TkCA -> "ca" | TkMC -> "mc" | TkMA -> "ma" | TkSet -> "s"
-    | TkSolve _ -> "S" | TkSMove -> "M" | TkSkip -> "-" | TkUB -> "UB"))
-    (vrun copy_fixed (store0 (nat_of_int 4)) ops)
+    | TkSolve _ -> if is_psolve.(k) then "P" else "S" | TkSMove -> "M" | TkSkip -> "-" | TkUB -> "UB"))
+    (vrun copy_fixed true (store0 (nat_of_int 4) (nat_of_int stages0)) ops)
 
 let () = families := !families @ [ ("vsem", fam_vsem) ]
 
